@@ -471,7 +471,7 @@ def run(ctx):
                 lines.append(("b32_dec", f"b32_dec {xs(a)}"))
                 if v <= 1 and ln in (20, 32) and not (v == 1 and ln == 20):
                     addrs.append((a, HRP[net]))
-                    for _ in range(ctx.n(2, 30)):      # more addresses of the three standard shapes
+                    for _ in range(ctx.n(5, 30)):      # more addresses of the three standard shapes
                         p2 = rbytes(rng, ln)
                         a2 = safe(B32.encode_bech32_checksum, bytes([vb, ln]) + p2, net)
                         if isinstance(a2, str):
@@ -570,7 +570,7 @@ def run(ctx):
 
     # ---- corrupted segwit addresses: exhaustive single substitutions, sampled double substitutions
     rng.shuffle(addrs)
-    picked = addrs[: ctx.n(40, 400)]
+    picked = addrs[: ctx.n(80, 400)]
     jobs = []
     n_single = n_double = 0
     for i, (a, hrp) in enumerate(picked):
